@@ -1190,7 +1190,7 @@ class ExecGen(Gen):
         elif k < 0.72 and self.sets:
             self.kw('cardinality')
             self.idt(r.choice(self.sets)[0])
-        elif k < 0.78:
+        elif k < 0.78 and not getattr(self, 'no_param', False):
             self.kw('param')
             self.pn('DOT')
             self.idt('n')
@@ -1673,3 +1673,202 @@ class ExecGen(Gen):
 
 def gen_exec_program(rng, max_stmts=8):
     return ExecGen(rng, max_stmts).program()
+
+
+# --------------------------------------------------------------------------------------- instance-based bodies (C08)
+
+class OpGen(ExecGen):
+    """bodies of an INSTANCE OPERATION of class A (home 'op') and of a DERIVED ATTRIBUTE of A (home 'dattr'), invoked
+    on the instance A2: `self` as instance name (relate / unrelate / delete), as navigation start and in assignments;
+    generate ... to self / class / assigner / creator, create event instance, bridge and transform invocations,
+    control stop, using, rcvd_evt - every keyword in a position where it is executed and prebuilt.  Statements the
+    interpreter does not support (event generation, send) are logged by it and change nothing."""
+
+    def __init__(self, rng, home='op', max_stmts=5):
+        ExecGen.__init__(self, rng, max_stmts)
+        self.home = home
+        self.no_param = home == 'dattr'          # a derived attribute has no parameters
+
+    def self_kw(self):
+        return self.kw('self')
+
+    def o_relate_self(self):
+        """move B3 from its A to self:  select any b ..; select one x related by b->A[R1]; unrelate b from x ..;
+        relate b to self ..;  (both operand orders)"""
+        r = self.r
+        b = self.name('b')
+        x = self.name('x')
+        self.kw('select'); self.kw('any'); self.idt(b); self.kw('from'); self.kw('instances'); self.kw('of')
+        self.idt('B'); self.kw('where'); self.pn('LPAREN'); self.kw('selected'); self.pn('DOT'); self.idt('Id')
+        self.pn('DOUBLEEQUAL'); self.num(r.choice([1, 2, 4])); self.pn('RPAREN'); self.end()
+        self.insts.append((b, 'B'))
+        self.kw('if'); self.pn('LPAREN'); self.kw('not_empty'); self.idt(b); self.pn('RPAREN')
+        self.kw('select'); self.kw('one'); self.idt(x); self.kw('related'); self.kw('by'); self.idt(b)
+        self.pn('ARROW'); self.idt('A'); self.pn('LSQBR'); self.idt('R1'); self.pn('RSQBR'); self.end()
+        self.kw('if'); self.pn('LPAREN'); self.kw('not_empty'); self.idt(x); self.pn('RPAREN')
+        self.kw('unrelate'); self.idt(b); self.kw('from'); self.idt(x); self.kw('across'); self.idt('R1'); self.end()
+        self.end_tok('if'); self.end()
+        if r.random() < 0.5:
+            self.kw('relate'); self.idt(b); self.kw('to'); self.self_kw(); self.kw('across'); self.idt('R1'); self.end()
+        else:
+            self.kw('relate'); self.self_kw(); self.kw('to'); self.idt(b); self.kw('across'); self.idt('R1'); self.end()
+        if r.random() < 0.4:
+            self.kw('unrelate'); self.self_kw(); self.kw('from'); self.idt(b); self.kw('across'); self.idt('R1')
+            self.end()
+        self.end_tok('if'); self.end()
+        self.p.count('o-relate-self')
+
+    def o_nav_self(self):
+        r = self.r
+        frm, to, rel, phrase, many = r.choice([n for n in EXEC_NAV if n[0] == 'A'])
+        card = r.choice(['many', 'any']) if many else r.choice(['one', 'any'])
+        v = self.name('r')
+        self.kw('select'); self.kw(card); self.idt(v); self.kw('related'); self.kw('by'); self.self_kw()
+        self.pn('ARROW'); self.idt(to); self.pn('LSQBR'); self.idt(rel)
+        if phrase:
+            self.pn('DOT'); self.t('TICKED_PHRASE', phrase)
+        self.pn('RSQBR'); self.end()
+        self.idt('acc'); self.pn('EQUAL'); self.idt('acc'); self.pn('TIMES'); self.num(2); self.pn('PLUS')
+        if card == 'many':
+            self.kw('cardinality'); self.idt(v)
+            self.sets.append((v, to))
+        else:
+            self.pn('LPAREN'); self.num(1); self.pn('RPAREN')
+            self.insts.append((v, to))
+        self.end()
+        self.p.count('o-nav-self')
+
+    def o_self_attr(self):
+        self.self_kw(); self.pn('DOT'); self.idt('N'); self.pn('EQUAL'); self.self_kw(); self.pn('DOT'); self.idt('N')
+        self.pn('PLUS'); self.int_expr(1); self.end()
+        self.idt('acc'); self.pn('EQUAL'); self.idt('acc'); self.pn('PLUS'); self.self_kw(); self.pn('DOT')
+        self.idt('N'); self.end()
+        self.p.count('o-self-attr')
+
+    def o_using(self):
+        """relate / unrelate ... using: the link instance is a fresh C (the interpreter relates both halves across
+        the same association and logs what the model rejects - the same way under every spelling)"""
+        c = self.name('u')
+        self.kw('create'); self.kw('object'); self.kw('instance'); self.idt(c); self.kw('of'); self.idt('C'); self.end()
+        self.next_id += 1
+        self.idt(c); self.pn('DOT'); self.idt('Id'); self.pn('EQUAL'); self.num(self.next_id); self.end()
+        self.kw('relate'); self.self_kw(); self.kw('to'); self.self_kw(); self.kw('across'); self.idt('R2')
+        self.kw('using'); self.idt(c); self.end()
+        if self.r.random() < 0.5:
+            self.kw('unrelate'); self.self_kw(); self.kw('from'); self.self_kw(); self.kw('across'); self.idt('R2')
+            self.kw('using'); self.idt(c); self.end()
+        self.p.count('o-using')
+
+    def o_bridge(self):
+        r = self.r
+        k = r.random()
+        if k < 0.35:
+            v = self.name('n')
+            self.kw('bridge'); self.idt(v); self.pn('EQUAL'); self.t('NAMESPACE', 'LOG')
+            self.t('DOUBLECOLON', '::', glue=True); self.idt('Twice'); self.pn('LPAREN'); self.idt('v'); self.pn('COLON')
+            self.int_expr(1); self.pn('RPAREN'); self.end()
+            self.ints.append(v)
+        elif k < 0.7:
+            self.kw('bridge'); self.t('NAMESPACE', 'LOG'); self.t('DOUBLECOLON', '::', glue=True); self.idt('Note')
+            self.pn('LPAREN'); self.idt('v'); self.pn('COLON'); self.int_expr(1); self.pn('RPAREN'); self.end()
+        else:
+            v = self.name('n')
+            self.idt(v); self.pn('EQUAL'); self.t('NAMESPACE', 'LOG'); self.t('DOUBLECOLON', '::', glue=True)
+            self.idt('Twice'); self.pn('LPAREN'); self.idt('v'); self.pn('COLON'); self.int_expr(1); self.pn('RPAREN')
+            self.end()
+            self.ints.append(v)
+        self.p.count('o-bridge')
+
+    def o_transform(self):
+        r = self.r
+        if r.random() < 0.5:
+            v = self.name('n')
+            self.kw('transform'); self.idt(v); self.pn('EQUAL'); self.self_kw(); self.pn('DOT'); self.idt('Bump')
+            self.pn('LPAREN'); self.idt('v'); self.pn('COLON'); self.int_expr(1); self.pn('RPAREN'); self.end()
+            self.ints.append(v)
+        else:
+            self.kw('transform'); self.self_kw(); self.pn('DOT'); self.idt('Bump'); self.pn('LPAREN'); self.idt('v')
+            self.pn('COLON'); self.num(r.choice([1, 2, 3])); self.pn('RPAREN'); self.end()
+        self.p.count('o-transform')
+
+    def ev_spec(self, label, meaning=True, data=True):
+        self.idt(label)
+        if meaning and self.r.random() < 0.6:
+            self.pn('COLON'); self.t('TICKED_PHRASE', "'go'")
+        if data and self.r.random() < 0.5:
+            self.pn('LPAREN'); self.idt('x'); self.pn('COLON'); self.int_expr(1); self.pn('RPAREN')
+
+    def o_generate(self):
+        r = self.r
+        k = r.random()
+        self.kw('generate')
+        if k < 0.3:
+            self.ev_spec('A1'); self.kw('to'); self.self_kw()
+        elif k < 0.5:
+            self.ev_spec('A3'); self.kw('to'); self.idt('A'); self.kw(r.choice(['class', 'assigner']))
+        elif k < 0.7:
+            self.ev_spec('A2'); self.kw('to'); self.idt('A'); self.kw('creator')
+        else:
+            self.ev_spec('A1'); self.kw('to'); self.self_kw()
+        self.end()
+        self.p.count('o-generate')
+
+    def o_create_event(self):
+        r = self.r
+        ev = self.name('ev')
+        self.kw('create'); self.kw('event'); self.kw('instance'); self.idt(ev); self.kw('of')
+        k = r.random()
+        if k < 0.4:
+            self.ev_spec('A1'); self.kw('to'); self.self_kw()
+        elif k < 0.7:
+            self.ev_spec('A3'); self.kw('to'); self.idt('A'); self.kw(r.choice(['class', 'assigner']))
+        else:
+            self.ev_spec('A2'); self.kw('to'); self.idt('A'); self.kw('creator')
+        self.end()
+        self.kw('generate'); self.idt(ev); self.end()
+        self.p.count('o-create-event')
+
+    def o_rcvd(self):
+        self.idt('acc'); self.pn('EQUAL'); self.idt('acc'); self.pn('PLUS'); self.kw('rcvd_evt'); self.pn('DOT')
+        self.idt('n'); self.end()
+        self.p.count('o-rcvd-evt')
+
+    def o_stop(self):
+        self.kw('if'); self.bool_expr(1); self.kw('control'); self.kw('stop'); self.end(); self.end_tok('if'); self.end()
+        self.p.count('o-control-stop')
+
+    def o_delete_self(self):
+        self.kw('if'); self.pn('LPAREN'); self.kw('param'); self.pn('DOT'); self.idt('n'); self.pn('GT'); self.num(3)
+        self.pn('RPAREN'); self.kw('delete'); self.kw('object'); self.kw('instance'); self.self_kw(); self.end()
+        self.end_tok('if'); self.end()
+        self.p.count('o-delete-self')
+
+    def program(self):
+        r = self.r
+        self.idt('acc'); self.pn('EQUAL'); self.num(1); self.end()
+        self.ints.append('acc')
+        pool = [self.o_relate_self, self.o_nav_self, self.o_self_attr, self.o_using, self.o_bridge, self.o_transform,
+                self.o_generate, self.o_create_event, self.o_rcvd, self.o_stop, self.x_effect, self.x_acc,
+                self.x_select_related, self.x_assign_int]
+        if self.no_param:
+            pool.remove(self.o_rcvd)
+        n = r.randint(3, self.max_stmts + 2)
+        for _ in range(n):
+            r.choice(pool)()
+        if r.random() < 0.25 and not self.no_param:
+            self.o_delete_self()
+        if self.home == 'dattr':
+            # the value of the derived attribute D
+            self.self_kw(); self.pn('DOT'); self.idt('D'); self.pn('EQUAL'); self.idt('acc'); self.end()
+        else:
+            if r.random() < 0.15:
+                # a port message is beyond both the interpreter and this prebuild domain: last statement only
+                self.kw('send'); self.t('NAMESPACE', 'PORT'); self.t('DOUBLECOLON', '::', glue=True); self.idt('sig')
+                self.pn('LPAREN'); self.pn('RPAREN'); self.end()
+                self.p.count('o-send')
+            self.kw('return'); self.idt('acc'); self.end()
+        return self.p
+
+
+def gen_op_program(rng, home='op', max_stmts=5):
+    return OpGen(rng, home, max_stmts).program()
